@@ -9,6 +9,11 @@ THEOREMS = [
     "C01.pass_fires_iff",
     "C01.pass_eq_spec",
     "C01.cycles_eq_spec",
+    "C01.calls_eq_spec",
+    "C01.caller_setNested_reads_back",
+    "C01.caller_setNested_err_unchanged",
+    "C01.caller_remove_absent",
+    "C01.caller_clear_reads_null",
     "C01.store_reads_back",
     "C01.set_reads_back",
     "C01.parenthesised_counterexample",
@@ -42,6 +47,14 @@ RULE = ("cases = corpus + N generated (rule set of 1-4 rules, fact store). Facts
         "or new Facts object); (d) ordinary generated cases run with max_cycles 1..3 and called again after 1..3 facts were replaced. For (c)/(d) the "
         "model runs C01.cycles per call from the current facts and the oracle judges every consideration of a rule in every cycle of every call on the "
         "facts the implementation itself reported for that moment. "
+        "(e) reach family (N/10 cases, after everything else): a base case of the ordinary / (d) / (c) generator is decorated with variant bits V — engine from "
+        "RustRuleEngine::new (default configuration, 100 cycles), rules added after construction through knowledge_base() / knowledge_base_mut() / "
+        "add_rules_from_grl, analytics enabled, facts stored through Facts::add (serde_json) wherever the value survives the JSON round trip, an undo frame open "
+        "around every call, whole-text GRLParser::parse_rules, rules built with Operator::from_str (both spellings) / Value::from / inert with_* builders — and "
+        "with 1..3 more execute calls before which the caller removes facts (present, absent, the object a nested condition reads), clears the store and "
+        "rebuilds part of it, writes through Facts::set / Facts::set_nested (existing path, missing root, non-object on the way: Err ignored) or hands the "
+        "content over in a new Facts object (add_value, merge, snapshot + restore, to_context + from_context). The variant bits other than `new` do not "
+        "concern the model (same prediction: the twin doors must behave the same); caller edits are C01.applyCaller in model and oracle. "
         "non-trivial = at least one rule was judged in-domain with >= 2 leaves or a judged read-back; distinct = distinct case text.")
 TRUSTED = [
     "Lean 4.33 kernel; axioms of every property theorem within {propext, Classical.choice, Quot.sound} (audited each run)",
@@ -49,7 +62,7 @@ TRUSTED = [
     "harness/src/bin/c01.rs, Driver/C01.lean parsing/printing glue (incl. the driver's decimal f64 reader used as FloatOps.parse), check.py diff",
     "IEEE-754 double arithmetic: the theorems are parametric in FloatOps F and never look inside a float; the driver instantiates F := Float (same hardware type as f64, fmod from libm)",
     "the agenda and rule attributes are C02/C03's subject: here rules without attributes, in insertion order; the cycle loop (max_cycles passes, stop after a pass without a firing) "
-    "and repeated execute calls on one engine are modelled as iteration of the one-pass model from the current facts (C01.cycles; theorem cycles_eq_spec)",
+    "and repeated execute calls on one engine with caller-side edits of the store in between are modelled as iteration of the one-pass model from the current facts (C01.cycles, C01.calls; theorems cycles_eq_spec, calls_eq_spec)",
 ]
 ASSUMPTIONS = [
     "ASCII text: the code indexes expression text by bytes/chars interchangeably (multibyte input is C05's subject); trim = ASCII whitespace",
